@@ -192,9 +192,8 @@ def leaf_laws(U, rep):
   for name, lidx in (('body-body', ([0], [1])), ('world-body', ([-1], [0]))):
     f = U.func(PC + '.resolve_position')
 
-    def thunk(w, lidx=lidx):
+    def thunk(lidx=lidx):
       I = new_interp(U.repo)
-      I.widen_at = w
       sysd = symsys.system('ff', (-1, -1))
       st = symsys.state_maxcoord(2)
       cb = symsys.contact(lidx)
@@ -208,16 +207,25 @@ def leaf_laws(U, rep):
       inv_mass = avn.elemwise(lambda a: 1 / (Rat.lift(a) ** k), sysd.f['link'].f['inertia'].f['mass'])
       w_ = [inv_mass[i] if i > -1 else Rat.lift(0) for i in (lidx[0][0], lidx[1][0])]
       if lidx[0][0] == -1:
-        return dp_p.f['pos'][0], P_zeros((3,)), I
-      return dp_p.f['pos'][0] * w_[1] + dp_c.f['pos'][0] * w_[0], P_zeros((3,)), I
+        return dp_p.f['pos'][0], P_zeros((3,))
+      return dp_p.f['pos'][0] * w_[1] + dp_c.f['pos'][0] * w_[0], P_zeros((3,))
 
-    verdict, got, want, I, w = escalate(thunk, levels=(80, 600, None))
-    if verdict is None:
-      raise AnalysisError('C04 translate pair law [%s]: inconclusive (exact evaluation over budget)' % name)
+    # decided by random interpretation (the identity is between large rational functions; a comparison of
+    # widened exact normal forms would depend on how the kernel happens to be written)
+    bad = None
+    for t in range(4):
+      avn.field_mode(900 + t, bool_default={0: 1, 1: 0}.get(t))       # gates: all open, all closed, then hashed
+      try:
+        got, want = thunk()
+        if not same(got, want):
+          bad = t
+      finally:
+        avn.exact_mode()
     what = ('a world-side contact correction is not masked to zero' if lidx[0][0] == -1 else
             'the contact position correction is not an equal-and-opposite pair through the inverse masses')
-    rep.check(verdict, 'R4.3', 'resolve_position.translate pair law [%s]' % name, what, where=f.where(),
-              construct='dp_p_pos, dp_c_pos = p * mass_inv[0], -p * mass_inv[1] (+ static friction)')
+    rep.check(bad is None, 'R4.3', 'resolve_position.translate pair law [%s]' % name,
+              what + ('' if bad is None else ' (random-interpretation trial %d)' % bad), where=f.where(),
+              construct='dp_p_pos, dp_c_pos = p * mass_inv[0], -p * mass_inv[1] (+ static friction)  [4 GF(p) trials]')
 
 
 def momentum(U, rep, tier):
